@@ -166,6 +166,7 @@ struct Fiber {
   uint64_t prio = 0;                  // PCT
   void *ts = nullptr;                 // tsan fiber
   int shim_depth = 0;                 // tsan: nesting of simulator code (accesses ignored)
+  int saved_errno = 0;                // errno is thread-local in reality; all fibers share the OS thread's
   std::vector<char> tls;              // this thread's copy of lbzip2's thread-local storage (empty unless a change introduces TLS)
   uint64_t stalled_until = 0;         // stall fault: not scheduled before this decision step while anything else can run
 };
@@ -351,6 +352,7 @@ static void switch_to(int from, int to, bool dying) {
   shim_suspend();
   s.cur = to;
   if (g_tls_dn + g_tls_bn) { tls_save(from < 0 ? g_tls_root : s.F[from].tls); tls_load(to < 0 ? g_tls_root : s.F[to].tls); }
+  { static int root_errno; int e = errno; if (from < 0) root_errno = e; else s.F[from].saved_errno = e; errno = to < 0 ? root_errno : s.F[to].saved_errno; }
 #ifdef SIM_TSAN
   static int run_token;
   if (from >= 0) TS_REL(&run_token);
@@ -661,8 +663,10 @@ static int new_fiber(void *(*fn)(void *), void *arg, uint64_t mask, int cls) {
   int id = s.nf++;
   Fiber &f = s.F[id];
   if ((size_t)id >= g_stacks.size()) {
-    char *st = (char *)mmap(0, STK, PROT_READ | PROT_WRITE, MAP_PRIVATE | MAP_ANONYMOUS | MAP_NORESERVE, -1, 0);
+    char *st = (char *)mmap(0, STK + 65536, PROT_READ | PROT_WRITE, MAP_PRIVATE | MAP_ANONYMOUS | MAP_NORESERVE, -1, 0);
     if (st == MAP_FAILED) { perror("mmap stack"); _exit(3); }
+    mprotect(st, 65536, PROT_NONE);     // guard: a stack overflow in a simulated thread faults instead of running into another mapping
+    st += 65536;
     g_stacks.push_back(st);
     (void)VALGRIND_STACK_REGISTER(st, st + STK);
   }
